@@ -9,6 +9,7 @@ import FalconProofs.C15.MergeTotal
 import FalconProofs.C15.NoPanic
 import FalconProofs.C15.CopyTotal
 import FalconProofs.C15.Blockify
+import FalconProofs.C15.Sorted
 
 namespace Falcon.C15
 open Falcon Falcon.CfgEdit
@@ -64,6 +65,13 @@ theorem ops_wf (ops : List EditOp) : ∀ g, WF (runAll ops g) := by
   induction ops with
   | nil => intro s hs; exact hs
   | cons o ops ih => intro s hs; exact ih _ (run_wf s hs o)
+
+/-- **ops_sorted** — in every reachable state the model's block list is strictly sorted by index and its edge list by
+    (head, tail): the model iterates blocks and edges (e.g. the pair selection of `merge`, the re-indexing order of
+    `append`) in the order of falcon's `BTreeMap`s.  Instance of `Closed.runAll`: every predicate closed under the
+    container primitives is preserved by every operation. -/
+theorem ops_sorted (ops : List EditOp) : ∀ g, Sorted (runAll ops g) :=
+  sorted_closed.runAll sorted_new ops
 
 /-- the predecessor / successor queries are exactly the edge set (in the model they are derived from it; the
     correspondence check compares falcon's own queries with these after every operation) -/
